@@ -89,6 +89,12 @@ type Config struct {
 	// NoUpdatesLoop leaves the filtering module's updates loop out: the caller
 	// runs its body (Filter.VerifDrainInitializer) itself, as a scheduled task.
 	NoUpdatesLoop bool
+	// PersistedBlock / PersistedAllow are the list entries of a configuration
+	// the system itself wrote during an earlier run on the same Dir (a
+	// restart): they are handed to the filtering module as they are (ids
+	// kept) after the entries of BlockLists / AllowLists, and the files of the
+	// data directory are left untouched.
+	PersistedBlock, PersistedAllow []filtering.FilterYAML
 }
 
 // Node is an assembled node.
@@ -212,6 +218,8 @@ func New(cfg *Config) (n *Node, err error) {
 	if fc.WhitelistFilters, err = writeLists(cfg.Dir, cfg.AllowLists); err != nil {
 		return nil, err
 	}
+	fc.Filters = append(fc.Filters, cfg.PersistedBlock...)
+	fc.WhitelistFilters = append(fc.WhitelistFilters, cfg.PersistedAllow...)
 	fcp := fc
 	n.Filter, err = filtering.New(&fcp, nil)
 	if err != nil {
